@@ -33,7 +33,7 @@ func TestMain(m *testing.M) {
 	stats.Main(m, "C19")
 }
 
-const rule = "rapid: compositions of 1-4 pipelines on 1-2 event types from the stock catalogue {Filter, encrypt.Filter, gated.Filter (wired to the broker or not) | JSONFormatter, JSONFormatterFilter, cloudevents json/text (with signer) | FileSink (size rotation), writer.Sink, ChannelSink}, node instances shared between pipelines by a drawn share group; 2-8 sender goroutines x 20-150 Sends (tagged struct / map / gateable payloads) while control goroutines call Broker.Reopen, encrypt.Filter.Rotate, cloudevents Rotate, gated FlushAll and the threshold setters; built with -race; oracle = no race report with a library frame (classified by the driver against the known findings), no panic, every sink output is a sequence of complete JSON documents and their number equals the sink completions reported by Status; non-trivial = >=2 pipelines on one type, one of them with a mutating node (encrypt/gated) behind another node; distinct = composition descriptor"
+const rule = "rapid: compositions of 1-4 pipelines on 1-2 event types from the stock catalogue {Filter, encrypt.Filter, gated.Filter (wired to the broker or not) | JSONFormatter, JSONFormatterFilter, cloudevents json/text (with signer) | FileSink (size rotation), several FileSink nodes naming one file, FileSink whose directory cannot be created, writer.Sink, ChannelSink}, node instances shared between pipelines by a drawn share group; 2-8 sender goroutines x 20-150 Sends (tagged struct / map / gateable payloads) while control goroutines call Broker.Reopen, encrypt.Filter.Rotate, cloudevents Rotate, gated FlushAll and the threshold setters; built with -race; oracle = no race report with a library frame (classified by the driver against the known findings), no panic, every sink output is a sequence of complete JSON documents and their number equals the sink completions reported by Status; non-trivial = >=2 pipelines on one type, one of them with a mutating node (encrypt/gated) behind another node; distinct = composition descriptor"
 
 var filterKinds = []string{"filter", "encrypt", "gated", "gatedNoBroker"}
 var fmtKinds = []string{"json", "jsonff", "ce-json", "ce-text"}
@@ -133,12 +133,13 @@ func runComp(t interface{ Fatalf(string, ...any) }, root string, caseNo int, spe
 	var ces []*cloudevents.FormatterFilter
 	var gats []*gated.Filter
 	sinks := map[string]*sinkObs{}
+	alias := map[string]string{} // node id -> key of the observation it contributes to
 	var stopDrain []chan struct{}
 	var drainWG sync.WaitGroup
 	keys := []cryptoref.Key{cryptoref.NewKey(1), cryptoref.NewKey(2)}
 	get := func(kind string, share int, formatKeyName string) (string, eventlogger.Node) {
 		id := fmt.Sprintf("%s-%d", kind, share)
-		if kind == "file" || kind == "writer" || kind == "chan" {
+		if kind == "file" || kind == "writer" || kind == "chan" || kind == "filetwin" || kind == "filebroken" {
 			id += "-" + formatKeyName
 		}
 		if n, ok := insts[id]; ok {
@@ -176,6 +177,21 @@ func runComp(t interface{ Fatalf(string, ...any) }, root string, caseNo int, spe
 			dir := filepath.Join(root, fmt.Sprintf("c%d-%s", caseNo, id))
 			n = &eventlogger.FileSink{Path: dir, FileName: "out.log", Format: formatKeyName, MaxBytes: 4000, MaxFiles: 0}
 			sinks[id] = &sinkObs{id: id, kind: "file", dir: dir}
+		case "filetwin":
+			// a FileSink node of its own (never shared) that names the same file as every other "filetwin" sink of this
+			// format in the composition: two pipelines configured to log into one file
+			obsKey := "filetwin-" + formatKeyName
+			dir := filepath.Join(root, fmt.Sprintf("c%d-%s", caseNo, obsKey))
+			n = &eventlogger.FileSink{Path: dir, FileName: "shared.log", Format: formatKeyName}
+			if sinks[obsKey] == nil {
+				sinks[obsKey] = &sinkObs{id: obsKey, kind: "file", dir: dir}
+			}
+			alias[id] = obsKey
+		case "filebroken":
+			// a FileSink whose directory cannot be created (its parent is a regular file): every Process and Reopen fails
+			blocker := filepath.Join(root, fmt.Sprintf("c%d-blocker", caseNo))
+			_ = os.WriteFile(blocker, []byte("x"), 0o600)
+			n = &eventlogger.FileSink{Path: filepath.Join(blocker, id), FileName: "never.log", Format: formatKeyName}
 		case "writer":
 			buf := &lockedBuf{}
 			n = &writer.Sink{Format: formatKeyName, Writer: buf}
@@ -231,7 +247,11 @@ func runComp(t interface{ Fatalf(string, ...any) }, root string, caseNo int, spe
 		id, _ := get(ps.Fmt, ps.Share, "")
 		ids = append(ids, eventlogger.NodeID(id))
 		kinds = append(kinds, ps.Fmt)
-		id, _ = get(ps.Sink, ps.Share, formatKey(ps.Fmt))
+		sinkShare := ps.Share
+		if ps.Sink == "filetwin" {
+			sinkShare = 1000 + i // one node per pipeline
+		}
+		id, _ = get(ps.Sink, sinkShare, formatKey(ps.Fmt))
 		ids = append(ids, eventlogger.NodeID(id))
 		kinds = append(kinds, ps.Sink)
 		for k := 1; k < len(kinds); k++ {
@@ -253,6 +273,10 @@ func runComp(t interface{ Fatalf(string, ...any) }, root string, caseNo int, spe
 	completions := sync.Map{} // sink id -> *atomic.Int64
 	for id := range sinks {
 		completions.Store(id, &atomic.Int64{})
+	}
+	for nodeID, obsKey := range alias {
+		c, _ := completions.Load(obsKey)
+		completions.Store(nodeID, c)
 	}
 	stop := make(chan struct{})
 	var cwg sync.WaitGroup
@@ -407,7 +431,7 @@ func TestC19SharedNodes(t *testing.T) {
 				ET:      rapid.SampledFrom([]string{"A", "A", "A", "B"}).Draw(t, "et"),
 				Filters: rapid.SliceOfN(rapid.SampledFrom(filterKinds), 0, 2).Draw(t, "filters"),
 				Fmt:     rapid.SampledFrom(fmtKinds).Draw(t, "fmt"),
-				Sink:    rapid.SampledFrom(sinkKinds).Draw(t, "sink"),
+				Sink:    rapid.SampledFrom([]string{"file", "file", "writer", "writer", "chan", "chan", "filetwin", "filetwin", "filebroken"}).Draw(t, "sink"),
 				Share:   rapid.IntRange(0, 1).Draw(t, "share"),
 			}
 			specs = append(specs, ps)
